@@ -48,6 +48,7 @@ def _instrument(text, macros):
 def _record(relpath, macros, init, update, ctxtype, block, hwords, hfmt, incdirs=()):
     """-> (IV list, steps with aligned input, steps with misaligned input)"""
     text = _instrument(extract.src(relpath), macros)
+    os.makedirs(vlib.BUILD, exist_ok=True)
     d = tempfile.mkdtemp(prefix="vh", dir=vlib.BUILD)
     try:
         srcdir = os.path.dirname(os.path.join(vlib.REPO, relpath))
@@ -206,3 +207,325 @@ def gen_hash():
         o.append("")
     o.append("end Mhd.Gen.Hash\n")
     return vlib.write_if_changed(os.path.join(extract.GEN, "Hash.lean"), "\n".join(o))
+
+
+# --------------------------------------------------------------------------
+# independent oracle: hashlib (with a pure-Python SHA-512/256 should hashlib lack it)
+
+def _py_sha512_256(msg):
+    """FIPS 180-4 SHA-512/256, straightforward reference (used only when hashlib has no sha512_256)"""
+    M = (1 << 64) - 1
+
+    def primes(n):
+        ps, c = [], 2
+        while len(ps) < n:
+            if all(c % p for p in ps):
+                ps.append(c)
+            c += 1
+        return ps
+
+    def icbrt_frac(p):  # first 64 bits of the fractional part of the cube root
+        n = p << 192
+        lo, hi = 0, 1 << 80
+        while lo < hi:
+            mid = (lo + hi + 1) // 2
+            if mid ** 3 <= n:
+                lo = mid
+            else:
+                hi = mid - 1
+        return lo & M
+
+    K = [icbrt_frac(p) for p in primes(80)]
+    H = [0x22312194FC2BF72C, 0x9F555FA3C84C64C2, 0x2393B86B6F53B151, 0x963877195940EABD,
+         0x96283EE2A88EFFE3, 0xBE5E1E2553863992, 0x2B0199FC2C85B8AA, 0x0EB72DDC81C52CA2]
+    rotr = lambda x, n: ((x >> n) | (x << (64 - n))) & M
+    m = bytearray(msg) + b"\x80"
+    m += b"\0" * ((112 - len(m)) % 128) + (8 * len(msg)).to_bytes(16, "big")
+    for i in range(0, len(m), 128):
+        W = [int.from_bytes(m[i + 8 * j:i + 8 * j + 8], "big") for j in range(16)]
+        for t in range(16, 80):
+            s0 = rotr(W[t - 15], 1) ^ rotr(W[t - 15], 8) ^ (W[t - 15] >> 7)
+            s1 = rotr(W[t - 2], 19) ^ rotr(W[t - 2], 61) ^ (W[t - 2] >> 6)
+            W.append((s1 + W[t - 7] + s0 + W[t - 16]) & M)
+        a, b, c, d, e, f, g, h = H
+        for t in range(80):
+            T1 = (h + (rotr(e, 14) ^ rotr(e, 18) ^ rotr(e, 41)) + ((e & f) ^ (~e & g)) + K[t] + W[t]) & M
+            T2 = ((rotr(a, 28) ^ rotr(a, 34) ^ rotr(a, 39)) + ((a & b) ^ (a & c) ^ (b & c))) & M
+            a, b, c, d, e, f, g, h = (T1 + T2) & M, a, b, c, (d + T1) & M, e, f, g
+        H = [(x + y) & M for x, y in zip(H, [a, b, c, d, e, f, g, h])]
+    return b"".join(x.to_bytes(8, "big") for x in H[:4]).hex()
+
+
+def _have(name):
+    try:
+        hashlib.new(name, b"")
+        return True
+    except (ValueError, TypeError):
+        return False
+
+
+_HAVE_512_256 = _have("sha512_256")
+
+
+def reference(alg, msg):
+    """the standard digest (hex) by an implementation that shares nothing with MHD or the model"""
+    if alg == "sha512_256" and not _HAVE_512_256:
+        return _py_sha512_256(msg)
+    return hashlib.new(HL[alg], msg).hexdigest()
+
+
+# --------------------------------------------------------------------------
+# generators: a case = (alg, [chunks], [offsets], tag); scripts are built per harness
+
+def hx(b):
+    return b.hex() if b else "-"
+
+
+def case_lines(alg, chunks, offs, pre=None):
+    ls = []
+    if pre is not None:      # an abandoned message before this one (context re-use without finish)
+        ls += ["init " + alg, "update %s %d %s" % (alg, pre[0], hx(pre[1]))]
+    ls.append("init " + alg)
+    for c, o in zip(chunks, offs):
+        ls.append("update %s %d %s" % (alg, o, hx(c)))
+    ls.append("finish " + alg)
+    return ls
+
+
+def split_random(rng, msg):
+    """random multi-way split, with empty chunks now and then"""
+    out, i = [], 0
+    while i < len(msg):
+        r = rng.random()
+        if r < 0.15:
+            out.append(b"")
+            continue
+        n = rng.choice([1, 2, 3, 7, 8, 55, 56, 63, 64, 65, 111, 112, 127, 128, 129]) if r < 0.6 else rng.randint(1, 200)
+        out.append(msg[i:i + n])
+        i += n
+    if rng.random() < 0.3:
+        out.append(b"")
+    return out
+
+
+def gen_cases(rng, alg, tier, boost):
+    maxlen = 300
+    two_way = 140 if tier == "quick" else 300
+    cases = []
+    for n in range(maxlen + 1):
+        msg = bytes(rng.getrandbits(8) for _ in range(n))
+        cases.append((alg, [msg], [rng.randrange(16)], "oneshot", None))
+        cases.append((alg, [msg[i:i + 1] for i in range(n)], [rng.randrange(16) for _ in range(n)], "bytewise", None))
+        for _ in range(3 if boost else 1):
+            ch = split_random(rng, msg)
+            pre = (rng.randrange(16), bytes(rng.getrandbits(8) for _ in range(rng.randrange(0, 200)))) \
+                if rng.random() < 0.25 else None
+            cases.append((alg, ch, [rng.randrange(16) for _ in ch], "multi", pre))
+        if n <= two_way:
+            for k in range(n + 1):
+                cases.append((alg, [msg[:k], msg[k:]], [(k + n) % 16, (3 * k + 1) % 16], "split2", None))
+    nbig = (4 if tier == "thorough" else 2) * (2 if boost else 1)
+    for i in range(nbig):
+        n = (1 << 20) + rng.choice([0, 1, 55, 56, 63, 64, 111, 112, 127])
+        msg = rng.randbytes(n)
+        if i % 2 == 0:
+            cases.append((alg, [msg], [rng.randrange(16)], "big-oneshot", None))
+        else:
+            cuts = sorted(rng.randrange(n) for _ in range(6))
+            ch = [msg[a:b] for a, b in zip([0] + cuts, cuts + [n])]
+            cases.append((alg, ch, [rng.randrange(16) for _ in ch], "big-multi", None))
+    if tier == "thorough":
+        for _ in range(3000):
+            n = rng.choice([rng.randint(301, 5000), rng.randint(0, 300)])
+            msg = rng.randbytes(n)
+            ch = split_random(rng, msg)
+            cases.append((alg, ch, [rng.randrange(16) for _ in ch], "multi-long", None))
+    return cases
+
+
+class Spec:
+    props_module = "Mhd.Props.C16"
+    lean_targets = ["Mhd.Props.C16", "drv_hash"]
+    required_theorems = ["Mhd.C16." + n for n in (
+        "sha256_chunks", "sha256_reuse", "sha256_table_is_standard",
+        "md5_chunks", "md5_reuse", "md5_table_is_standard",
+        "sha512_256_chunks", "sha512_256_reuse", "sha512_256_counter", "sha512_256_table_is_standard",
+        "sha1_chunks", "sha1_reuse", "ws_sha1_chunks", "ws_sha1_reuse", "sha1_table_is_standard")]
+    trusted_base = ["Lean 4 kernel", "axioms: propext, Classical.choice, Quot.sound at most (audited per theorem)",
+                    "hand-written specifications lean/Mhd/Model/Hash/Spec*.lean (RFC 1321 / FIPS 180-4 transcriptions; "
+                    "validated on published vectors and against hashlib on every explored message)",
+                    "hand-written model lean/Mhd/Model/Hash/{MD,Md5,Sha1,Sha256,Sha512}.lean tied to the C files by "
+                    "the regenerated step tables (tools/props/C16.py: instrumented step macros, executed) and this run's correspondence",
+                    "harness/h_hash.c, gcc, ASan/UBSan (alignment), Python hashlib as independent reference"]
+    assumptions = ["configured build: little-endian, !MHD_FAVOR_SMALL_CODE, 64-bit size_t",
+                   "alignment independence is a property of the C memory accesses: established by the run "
+                   "(all 16 misalignments of data and digest under UBSan), not by the theorems",
+                   "SHA-512/256: each single update call is shorter than 2^64 bytes (size_t)"]
+    algs = [a for a in ALGS if a in os.environ.get("VERIF_C16_ALGS", ",".join(ALGS)).split(",")]
+
+    def gen(self, ctx):
+        gen_hash()
+
+    def build(self, ctx):
+        R = os.path.join(vlib.REPO, "src/microhttpd")
+        W = os.path.join(vlib.REPO, "src/microhttpd_ws")
+        h = os.path.join(vlib.VERIF, "harness/h_hash.c")
+        self.h_main = vlib.cc("h_hash", [h] + [os.path.join(R, f) for f in ("md5.c", "sha1.c", "sha256.c", "sha512_256.c")])
+        self.h_ws = vlib.cc("h_hash_ws", [h, os.path.join(W, "sha1.c")],
+                            extra=['-DHASH_WS_H="%s"' % os.path.join(W, "sha1.h")])
+        self.driver = vlib.driver_path("drv_hash")
+
+    def harness_for(self, alg):
+        return self.h_ws if alg == "wssha1" else self.h_main
+
+    def run_batch(self, alg, cases, failures, stats):
+        """cases of one algorithm -> harness, driver, oracle"""
+        lines, spans = [], []
+        for (a, chunks, offs, tag, pre) in cases:
+            ls = case_lines(a, chunks, offs, pre)
+            msg = b"".join(chunks)
+            if len(msg) <= 300 and tag in ("oneshot", "multi"):
+                ls.append("spec %s %s" % (a, hx(msg)))
+            spans.append((len(lines), len(ls)))
+            lines += ls
+        hout, hrc, herr = vlib.run_lines(self.harness_for(alg), lines, timeout=1200)
+        mout, mrc, merr = vlib.run_lines(self.driver, lines, timeout=1200)
+        if hrc != 0:
+            pos = len(hout)
+            for (a, chunks, offs, tag, pre), (st, ln) in zip(cases, spans):
+                if st + ln > pos:
+                    failures.append(vlib.Failure("sanitizer", "hash %s: harness aborted (%s)" % (alg, _san_kind(herr)),
+                                                 herr[-1500:], lines[st:st + ln], "hash"))
+                    break
+            else:
+                failures.append(vlib.Failure("sanitizer", "hash %s: harness aborted at exit (%s)" % (alg, _san_kind(herr)),
+                                             herr[-1500:], lines[-5:], "hash"))
+            return
+        for (a, chunks, offs, tag, pre), (st, ln) in zip(cases, spans):
+            msg = b"".join(chunks)
+            want = "digest " + reference(a, msg)
+            h = hout[st:st + ln]
+            m = mout[st:st + ln]
+            nspec = 1 if lines[st + ln - 1].startswith("spec ") else 0
+            fin = ln - 1 - nspec
+            stats["cases"] += 1
+            stats["by_tag"][tag] = stats["by_tag"].get(tag, 0) + 1
+            stats["chunks"] += len(chunks)
+            stats["empty_chunks"] += sum(1 for c in chunks if not c)
+            L = len(msg)
+            stats["len_class"][_len_class(a, L)] = stats["len_class"].get(_len_class(a, L), 0) + 1
+            inp = lines[st:st + ln]
+            shape = "%s %s" % (a, tag)
+            if len(h) < ln or h[fin] != want:
+                got = h[fin] if len(h) > fin else "<no output>"
+                kind = "mismatch between alignments" if got.startswith("mismatch") else "digest differs from the standard"
+                failures.append(vlib.Failure("oracle", "hash %s: %s" % (shape, kind),
+                                             "len=%d chunks=%s: code says '%s', standard says '%s'"
+                                             % (L, [len(c) for c in chunks][:12], got, want), inp, "hash"))
+                continue
+            if nspec and h[ln - 1] != want:
+                failures.append(vlib.Failure("oracle", "hash %s: one-shot digest differs from the standard" % a,
+                                             "len=%d code '%s' standard '%s'" % (L, h[ln - 1], want), inp, "hash"))
+                continue
+            if m != h:
+                j = next((i for i in range(ln) if i >= len(m) or m[i] != h[i]), 0)
+                what = "specification" if (nspec and j == ln - 1) else "model"
+                if any(x.startswith("fault") for x in m):
+                    failures.append(vlib.Failure("model", "hash %s: model faults" % shape,
+                                                 "line '%s': model '%s'" % (inp[j], m[j] if j < len(m) else ""), inp, "hash"))
+                else:
+                    failures.append(vlib.Failure("diff", "hash %s: %s and code differ" % (shape, what),
+                                                 "line '%s': code '%s', %s '%s'" % (inp[j], h[j], what, m[j] if j < len(m) else "<none>"),
+                                                 inp, "hash"))
+                continue
+            stats["agree"] += 1
+
+    def explore(self, ctx, boost):
+        failures = []
+        stats = {"cases": 0, "agree": 0, "chunks": 0, "empty_chunks": 0, "by_tag": {}, "len_class": {}, "per_alg": {}}
+        corpus = []
+        cdir = os.path.join(vlib.VERIF, "corpus", "hash")
+        if os.path.isdir(cdir):
+            for f in sorted(os.listdir(cdir)):
+                corpus.append(json.load(open(os.path.join(cdir, f))))
+        samples, distinct = [], set()
+        for alg in self.algs:
+            cases = [tuple([c["alg"], [bytes.fromhex(x) for x in c["chunks"]], c["offs"], "corpus", None])
+                     for c in corpus if c["alg"] == alg]
+            cases += gen_cases(ctx.rng, alg, ctx.tier, boost)
+            before = stats["cases"]
+            small = [c for c in cases if not c[3].startswith("big")]
+            big = [c for c in cases if c[3].startswith("big")]
+            B = 4000
+            for i in range(0, len(small), B):
+                self.run_batch(alg, small[i:i + B], failures, stats)
+                if len(failures) > 30:
+                    break
+            for c in big:
+                self.run_batch(alg, [c], failures, stats)
+            stats["per_alg"][alg] = stats["cases"] - before
+            for c in cases:
+                distinct.add((alg, tuple(len(x) for x in c[1])))
+            samples.append("%s len=%d chunks=%s offs=%s" % (alg, sum(len(x) for x in cases[5][1]),
+                                                             [len(x) for x in cases[5][1]][:8], cases[5][2][:8]))
+            ctx.note("%s: %d cases, %d failures so far" % (alg, stats["per_alg"][alg], len(failures)))
+        cov = {"evaluations": stats["cases"], "distinct_nontrivial": len(distinct),
+               "rule": "one evaluation = one message through init/update*/finish on the real code (16 replicas: every data "
+                       "and digest misalignment 0..15, contexts re-used across messages), the Lean model, and hashlib; "
+                       "distinct = different (algorithm, chunk-length sequence); exhaustive sub-domains: every length 0..300 "
+                       "one-shot and byte-by-byte, every 2-way split of every length <= %d; random: multi-way splits with "
+                       "empty chunks, abandoned messages before init, 1 MiB messages" % (140 if ctx.tier == "quick" else 300),
+               "samples": samples, "algorithms": self.algs, "outcomes": {"agree_all_three": stats["agree"]},
+               "by_mode": stats["by_tag"], "length_classes": stats["len_class"], "chunks_fed": stats["chunks"],
+               "empty_chunks_fed": stats["empty_chunks"], "per_algorithm": stats["per_alg"],
+               "misalignments": "0..15 for every update and every digest (harness replicas), under -fsanitize=alignment",
+               "hashlib_has_sha512_256": _HAVE_512_256, "exhaustive": False}
+        return failures, cov
+
+
+def _san_kind(err):
+    m = re.search(r"(AddressSanitizer: [\w-]+|runtime error: [^\n]{0,80})", err or "")
+    return re.sub(r"0x[0-9a-f]+|\d+", "N", m.group(1)) if m else "no sanitizer message"
+
+
+def _len_class(alg, n):
+    B = 128 if alg == "sha512_256" else 64
+    L = 16 if alg == "sha512_256" else 8
+    r = n % B
+    if n == 0:
+        return "empty"
+    if r == 0:
+        return "block-multiple"
+    if r == B - L - 1:
+        return "pad-exactly-fits"
+    if r == B - L:
+        return "pad-spills-by-one"
+    if r > B - L:
+        return "two-block-padding"
+    return "one-block-padding"
+
+
+def replay(ctx, path):
+    r = json.load(open(path))
+    sp = Spec(); sp.gen(ctx); vlib.lake_build(sp.lean_targets); sp.build(ctx)
+    inp = r.get("input") or (r.get("disagreements") or [{}])[0].get("input")
+    if not inp:
+        print("replay file carries no input (proof obligation only):", r.get("no_longer_checks"))
+        return 1
+    alg = inp[0].split()[1]
+    hout, hrc, herr = vlib.run_lines(sp.harness_for(alg), inp)
+    mout, mrc, merr = vlib.run_lines(sp.driver, inp)
+    for i, l in enumerate(inp):
+        print("%-60s code: %-40s model: %s" % (l[:60], hout[i] if i < len(hout) else "<none>", mout[i] if i < len(mout) else "<none>"))
+    if hrc:
+        print(herr[-2000:])
+    msgs, cur = [], None
+    for l in inp:
+        w = l.split()
+        if w[0] == "init":
+            cur = b""
+        elif w[0] == "update":
+            cur += b"" if w[3] == "-" else bytes.fromhex(w[3])
+        elif w[0] == "finish":
+            print("standard:", reference(alg, cur))
+    return 1 if (hrc or hout != mout) else 0
